@@ -1,4 +1,8 @@
+\* the current code, every protocol version, requests of up to 2 header lines
 SPECIFICATION Spec
-CONSTANT MaxHeaders = 2
+CONSTANTS
+  MaxHeaders = 2
+  Protos = {"HTTP/1.0", "HTTP/1.1", "HTTP/2.0", "HTTP/3.0"}
+  LowerBeforeLookup = FALSE
 INVARIANTS DumpRedacts EmitCases
 CHECK_DEADLOCK FALSE
